@@ -63,13 +63,14 @@ D18 = "dump-header-missing-when-no-pixel-in-row-range"
 class Cool:
     """the input data a test cooler is created from (the oracle reads only this)"""
 
-    def __init__(self, widths, px, weights, symm, tag="", fcount=False, extra=None):
+    def __init__(self, widths, px, weights, symm, tag="", fcount=False, extra=None, names=None):
         self.fcount = fcount                                          # float `count` column (values are dyadic Fractions)
         self.extra = extra or {}                                      # extra float bin columns: name -> [Fraction]
         self.widths = widths
         self.blocks = blocks_from_widths(widths)
         self.bins = [b for blk in self.blocks for b in blk]          # (cid, start, end)
-        self.names = names_for(len(widths))
+        self.names = list(names) if names else names_for(len(widths))
+        self.custom_names = bool(names)
         self.px = sorted(px)                                          # storage order
         self.weights = weights                                        # list of Fraction|None, or None
         self.symm = symm
@@ -79,6 +80,7 @@ class Cool:
         fr = lambda v: [v.numerator, v.denominator]
         return {"widths": self.widths, "px": [[a, b, fr(v) if self.fcount else v] for a, b, v in self.px], "symm": self.symm,
                 "fcount": self.fcount, "extra": {k: [fr(x) for x in v] for k, v in self.extra.items()},
+                "names": self.names if self.custom_names else None,
                 "weights": None if self.weights is None else [None if w is None else [w.numerator, w.denominator] for w in self.weights]}
 
     @staticmethod
@@ -87,7 +89,7 @@ class Cool:
         fc = s.get("fcount", False)
         return Cool(s["widths"], [(a, b, Fraction(v[0], v[1]) if fc else v) for a, b, v in s["px"]],
                     None if w is None else [None if x is None else Fraction(x[0], x[1]) for x in w], s["symm"],
-                    fcount=fc, extra={k: [Fraction(x[0], x[1]) for x in v] for k, v in s.get("extra", {}).items()})
+                    fcount=fc, extra={k: [Fraction(x[0], x[1]) for x in v] for k, v in s.get("extra", {}).items()}, names=s.get("names"))
 
     def bins_df(self):
         df = pd.DataFrame({"chrom": [self.names[c] for c, _, _ in self.bins],
@@ -98,7 +100,7 @@ class Cool:
             df[k] = [float(x) for x in v]
         return df
 
-    def create(self, uri):
+    def create(self, uri, mode="w"):
         import cooler
         px = pd.DataFrame({"bin1_id": np.array([p[0] for p in self.px], dtype=np.int64),
                            "bin2_id": np.array([p[1] for p in self.px], dtype=np.int64),
@@ -107,9 +109,9 @@ class Cool:
         if self.fcount:        # plus an extra pixel column the dump must ignore
             px["foo"] = np.arange(len(px), dtype=np.int64)
             cooler.create_cooler(uri, self.bins_df(), px, columns=["count", "foo"], dtypes={"count": np.float64},
-                                 symmetric_upper=self.symm, ordered=True)
+                                 symmetric_upper=self.symm, ordered=True, mode=mode)
         else:
-            cooler.create_cooler(uri, self.bins_df(), px, symmetric_upper=self.symm, ordered=True)
+            cooler.create_cooler(uri, self.bins_df(), px, symmetric_upper=self.symm, ordered=True, mode=mode)
 
     def coq(self):
         bins = C.lst([C.tup(C.z(c), C.z(s), C.z(e)) for c, s, e in self.bins])
@@ -903,6 +905,10 @@ def impl_load(runner, cli, cool, case, ldir, k):
                 obs["first_intact"] = first is not None and first[1] == [tuple(p) for p in cool.px]
             if tdir is not None:
                 obs["tempdir_left"] = sorted(os.listdir(tdir))
+            if post.get("bins_table"):
+                bt = clr.bins()[:]
+                obs["bins"] = [[str(c), int(s_), int(e)] for c, s_, e in zip(bt["chrom"], bt["start"], bt["end"])]
+                obs["chroms"] = [[str(n), int(l)] for n, l in zip(clr.chromnames, clr.chromsizes.values)]
         except Exception as e:
             obs["error"] = type(e).__name__
     case["_obs"] = obs
@@ -927,6 +933,9 @@ def oracle_load(cool, case, code, ires, storage):
             return {"why": "--assembly not stored", "obs": obs}
         if post.get("append") and (obs.get("groups") != ["/", "/second"] or not obs.get("first_intact")):
             return {"why": "--append: the existing collection was lost or altered", "obs": obs}
+        if post.get("bins_table") and (obs.get("bins") != [[cool.names[c], s_, e] for c, s_, e in cool.bins]
+                                       or obs.get("chroms") != [[n, blk[-1][2]] for n, blk in zip(cool.names, cool.blocks)]):
+            return {"why": "the stored bin / chromosome table is not the one of the BINS argument as it is now", "obs": obs}
         if post.get("tempdir") and not post.get("keep_temp") and obs.get("tempdir_left"):
             return {"why": "temporary files left in --temp-dir", "obs": obs}
         if post.get("keep_temp") and not obs.get("tempdir_left"):
@@ -1261,6 +1270,10 @@ def impl_cload(runner, cli, cool, case, pdir, k):
                 obs["first_intact"] = first is not None and first[1] == [tuple(p) for p in cool.px]
             if tdir is not None:
                 obs["tempdir_left"] = sorted(os.listdir(tdir))
+            if post.get("bins_table"):
+                bt = clr.bins()[:]
+                obs["bins"] = [[str(c), int(s_), int(e)] for c, s_, e in zip(bt["chrom"], bt["start"], bt["end"])]
+                obs["chroms"] = [[str(n), int(l)] for n, l in zip(clr.chromnames, clr.chromsizes.values)]
         except Exception as e:
             obs["error"] = type(e).__name__
     case["_obs"] = obs
@@ -1333,6 +1346,9 @@ def oracle_cload(cool, case, code, ires, pdir, k):
             return {"why": "--assembly not stored", "obs": obs}
         if post.get("append") and (obs.get("groups") != ["/", "/second"] or not obs.get("first_intact")):
             return {"why": "--append: the existing collection was lost or altered", "obs": obs}
+        if post.get("bins_table") and (obs.get("bins") != [[cool.names[c], s_, e] for c, s_, e in cool.bins]
+                                       or obs.get("chroms") != [[n, blk[-1][2]] for n, blk in zip(cool.names, cool.blocks)]):
+            return {"why": "the stored bin / chromosome table is not the one of the BINS argument as it is now", "obs": obs}
         if post.get("tempdir") and obs.get("tempdir_left"):
             return {"why": "temporary files left in --temp-dir", "obs": obs}
     return None
@@ -1593,6 +1609,174 @@ def run_light(ctx, runner, cli, cools, uris, thorough):
             os.remove(out)
 
 
+# ============================================================ F. history pass: state carried between calls in one process
+class HistCtx:
+    """forwards to the real context, labelling every case with its position in the history (a history case can only be
+    replayed by re-running the whole history)"""
+
+    def __init__(self, ctx, step):
+        self._ctx, self._step = ctx, step
+
+    def _wrap(self, case):
+        return {"kind": "history", "step": self._step, "inner": case}
+
+    def case(self, case, nontrivial=True, kind=None):
+        self._ctx.case(self._wrap(case), nontrivial=nontrivial, kind="history:" + (kind or "?").split(":")[0])
+
+    def fail(self, case, detail, signature=None):
+        self._ctx.fail(self._wrap(case), detail, signature)
+
+    def compare(self, what, case, impl, model):
+        return self._ctx.compare(what, self._wrap(case), impl, model)
+
+    def disagree(self, what, case, impl, model):
+        self._ctx.disagree(what, self._wrap(case), impl, model)
+
+    def __getattr__(self, name):
+        return getattr(self._ctx, name)
+
+
+def history_coolers():
+    Fr = Fraction
+    A = Cool([[10, 10, 5], [10, 7]], [(0, 0, 3), (0, 3, 1), (1, 1, 4), (1, 2, 7), (2, 2, 1), (2, 4, 5), (3, 4, 2)],
+             [Fr(1, 2), None, Fr(5, 4), Fr(2), Fr(3, 4)], True, "A")
+    A2 = Cool([[10, 10, 5], [10, 7]], [(0, 1, 6), (0, 4, 2), (1, 3, 8), (2, 2, 9), (3, 3, 1), (4, 4, 4)],
+              [Fr(3, 2), Fr(1, 4), None, Fr(1), Fr(7, 8)], True, "A2-same-table-other-content")
+    B = Cool([[7, 23], [4, 5, 1]], [(0, 0, 2), (0, 4, 6), (1, 0, 3), (2, 1, 9), (2, 2, 1), (3, 0, 4), (3, 3, 8), (4, 1, 5)],
+             [Fr(3, 8), Fr(9, 8), None, Fr(1), Fr(7, 4)], False, "B-variable-same-nbins")
+    E = Cool([[5, 10, 10], [4, 13]], [(0, 2, 5), (1, 1, 2), (1, 4, 3), (2, 3, 6), (3, 3, 7)],
+             [Fr(1), Fr(3, 4), Fr(5, 8), None, Fr(2)], True, "E-same-chromsizes-same-nbins-other-bins")
+    N = Cool([[10, 10, 5], [10, 7]], [(0, 0, 1), (0, 2, 2), (1, 4, 3), (3, 3, 4), (3, 4, 5)],
+             [Fr(2), Fr(1, 2), Fr(1, 4), Fr(3, 2), None], True, "N-other-names", names=["x1", "y2"])
+    Cc = Cool([[10, 10], [10, 10, 10, 3]], [(0, 0, 1), (0, 5, 2), (1, 2, 3), (4, 5, 4), (5, 5, 6)],
+              [Fr(1, 2), Fr(1), Fr(3, 2), None, Fr(2), Fr(1, 4)], True, "C-same-binsize-more-bins")
+    F = Cool([[10, 10], [10, 10, 2]], [(0, 1, 2), (1, 4, 3), (2, 2, 1)], None, True, "F-same-binsize-same-nbins-other-chromsizes")
+    return {"A": A, "A2": A2, "B": B, "E": E, "N": N, "C": Cc, "F": F}
+
+
+def history_dump_opts(cool):
+    rp = region_pairs(cool)
+    w = cool.weights is not None
+    out = []
+    o = default_opts(); out.append(o)
+    o = default_opts(); o.update(join=True, balanced=w); out.append(o)
+    r, r2 = rp[11]                                   # trans: (column chromosome, row chromosome)
+    o = default_opts(); o.update(join=True, balanced=w, starts1=True); o["r"] = (reg_text(cool, *r), tuple(r)); o["r2"] = (reg_text(cool, *r2, style=1), tuple(r2)); out.append(o)
+    r, r2 = rp[4]
+    o = default_opts(); o.update(fill=True, annotate=["weight"] if w else None); o["r"] = (reg_text(cool, *r), tuple(r)); o["r2"] = (reg_text(cool, *r2), tuple(r2)); out.append(o)
+    return out
+
+
+def history_tables(hc, runner, cli, cool, uri):
+    """dump -t bins / -t chroms of the collection behind [uri] as it is NOW"""
+    names = ["chrom", "start", "end"] + (["weight"] if cool.weights is not None else [])
+    rows = []
+    for i, (c, s_, e) in enumerate(cool.bins):
+        d = {"chrom": cool.names[c], "start": str(s_), "end": str(e)}
+        if cool.weights is not None:
+            d["weight"] = fmt_float(cool.weights[i], default_opts())
+        rows.append([d[n] for n in names])
+    for table, exp in (("bins", [names] + rows), ("chroms", [["name", "length"]] + [[n, str(blk[-1][2])] for n, blk in zip(cool.names, cool.blocks)])):
+        case = {"kind": "dump-" + table, "cool": cool.spec()}
+        hc.case(case, nontrivial=True, kind="dump:" + table)
+        code, text = invoke(runner, cli, ["dump", "-t", table, "-H", uri])
+        if code != 0 or read_tsv(text) != exp:
+            hc.fail(case, {"why": f"dump -t {table} differs from the table stored now", "expected": exp[:8], "got": read_tsv(text)[:8] if code == 0 else str(code)}, None)
+
+
+def history_dump(hc, runner, cli, cool, uri):
+    import cooler
+    for o in history_dump_opts(cool):
+        code, text = invoke(runner, cli, cli_args(o, uri))
+        lib = None
+        if code == 0:
+            try:
+                lib = library_rows(cooler.Cooler(uri), cool, o)
+            except Exception:
+                lib = None
+        check_dump_case(hc, cool, o, code, text, SKIP, lib)
+    history_tables(hc, runner, cli, cool, uri)
+
+
+def history_ingest(hc, runner, cli, cool, kind, hdir, rng):
+    """load -f bg2 and cload pairs with the SAME bins argument string, the SAME input and output paths"""
+    n = len(cool.bins)
+    keys, recs = set(), []
+    for _ in range(7):
+        a, b = rng.randrange(n), rng.randrange(n)
+        k = (min(a, b), max(a, b))
+        if k not in keys:
+            keys.add(k)
+            recs.append((a, b, rng.randint(1, 30)))
+    text = []
+    for a, b, v in recs:
+        row = []
+        for i in (a, b):
+            c, s_, e = cool.bins[i]
+            row += [cool.names[c], str(e - 1), str(e)]
+        text.append(row + [str(v)])
+    case = {"kind": "load-audit", "cool": cool.spec(), "fmt": "bg2", "one_based": False, "duplex": False, "chunk": None, "fields": [],
+            "symm": True, "text": text, "vn": ["count"], "bins": kind, "post": {"bins_table": True}}
+    hc.case(case, nontrivial=True, kind="load")
+    code, ires, storage = impl_load(runner, cli, cool, case, hdir, "H")
+    bad = oracle_load(cool, case, code, ires, storage)
+    if bad:
+        hc.fail(case, bad, None)
+    rows = []
+    for _ in range(8):
+        row = []
+        for _side in "12":
+            c = rng.randrange(len(cool.blocks))
+            row += [cool.names[c], str(rng.randrange(cool.blocks[c][-1][2]))]
+        rows.append(row)
+    case = {"kind": "cload-pairs", "cool": cool.spec(), "layout": dict(zip(POS_NAMES, range(4))), "ncols": 4, "zero_based": True, "symm": True,
+            "chunk": None, "header": False, "fields": [], "text": rows, "extras": [], "bins": kind, "post": {"bins_table": True}}
+    hc.case(case, nontrivial=True, kind="cload")
+    code, ires = impl_cload(runner, cli, cool, case, hdir, "H")
+    bad = oracle_cload(cool, case, code, ires, hdir, "H")
+    if bad:
+        hc.fail(case, bad, None)
+
+
+def run_history(ctx, runner, cli):
+    """ONE process, the same strings (paths, URIs, BINS arguments) while the files behind them change in between;
+    every output is judged for the data stored NOW"""
+    rng = ctx.rng
+    hdir = ctx.tmp / "history"
+    hdir.mkdir(exist_ok=True)
+    H = history_coolers()
+    step = [0]
+
+    def hc():
+        step[0] += 1
+        return HistCtx(ctx, step[0])
+    # (a1) one path, rewritten with another cooler between the dumps; (c) then the same in another order
+    path = str(hdir / "same.cool")
+    order = ["A", "B", "N", "E", "C", "A2", "A"]
+    for seq in (order, ["A2", "E", "A", "C", "N", "B", "A2"]):
+        for name in seq:
+            if os.path.exists(path):
+                os.remove(path)
+            H[name].create(path)
+            history_dump(hc(), runner, cli, H[name], path)
+    # (a2) several coolers as groups of ONE file, dumped alternately (two spellings of the URI); then the groups swap content
+    gpath = str(hdir / "groups.cool")
+    for assign in (["A", "B", "N", "E"], ["E", "N", "A2", "B"]):
+        if os.path.exists(gpath):
+            os.remove(gpath)
+        for gi, name in enumerate(assign):
+            H[name].create(f"{gpath}::/g{gi}", mode="a" if gi else "w")
+        for k, gi in enumerate([0, 1, 2, 3, 1, 0, 3, 2, 0, 2]):
+            uri = f"{gpath}::/g{gi}" if k % 2 == 0 else f"{gpath}::g{gi}"
+            history_dump(hc(), runner, cli, H[assign[gi]], uri)
+    # (b) load / cload: the same BINS string, the file behind it rewritten; A / E agree in chromsizes and number of bins
+    for kind, seq in (("bed", ["A", "E", "B", "N", "A", "E"]), ("sizes", ["A", "F", "N", "A", "C"]),
+                      ("bed", ["E", "A", "N", "B", "E"]), ("sizes", ["C", "N", "F", "A"])):
+        for name in seq:
+            history_ingest(hc(), runner, cli, H[name], kind, hdir, rng)
+    ctx.extra["history_steps"] = step[0]
+
+
 # ============================================================ run / replay
 def run(ctx):
     from click.testing import CliRunner
@@ -1611,7 +1795,8 @@ def run(ctx):
         run_load(ctx, runner, cli, cools, uris, thorough); tm["load"] = round(time.time() - t0, 1); t0 = time.time()
         run_cload(ctx, runner, cli, cools, thorough); tm["cload"] = round(time.time() - t0, 1); t0 = time.time()
         run_fieldparam(ctx); tm["fieldparam"] = round(time.time() - t0, 1); t0 = time.time()
-        run_light(ctx, runner, cli, cools, uris, thorough); tm["light"] = round(time.time() - t0, 1)
+        run_light(ctx, runner, cli, cools, uris, thorough); tm["light"] = round(time.time() - t0, 1); t0 = time.time()
+        run_history(ctx, runner, cli); tm["history"] = round(time.time() - t0, 1)
         ctx.extra["section_wall_s"] = tm
     finally:
         os.chdir(cwd)
@@ -1658,6 +1843,13 @@ def replay(ctx, case):
             cool = Cool.from_spec(case["cool"])
             code, ires = impl_cload(runner, cli, cool, case, ctx.tmp, 0)
             return oracle_cload(cool, case, code, ires, ctx.tmp, 0) is None
+        if kind == "history":        # state between calls: only the whole history reproduces it
+            sub = type(ctx)(ctx.prop, ctx.tier, ctx.seed)
+            try:
+                run_history(sub, runner, cli)
+            finally:
+                shutil.rmtree(sub.tmp, ignore_errors=True)
+            return not [f for f in sub.failures if f[0].get("step") == case["step"] and f[2] is None]
         # the light checks (bins/chroms tables, zoomify spellings, parse_field_param) re-run as a whole
         sub = type(ctx)(ctx.prop, ctx.tier, ctx.seed)
         try:
